@@ -195,7 +195,9 @@ UseResult(L) ==
                            mem |-> SelectSeq(hit, LAMBDA i : IdOf(i, e1) = o)]])
     IN [e1 |-> e1, gs |-> gs, out |-> out,
         blk |-> Concrete([i \in 1..N |-> IF i \in ToSet(hit) THEN [blk[i] EXCEPT !.xs = <<newType(blk[i].xs[1])>>] ELSE blk[i]]),
-        ctl |-> ctl \cup {[id |-> newId(o), opt |-> CtlFor(o).opt, iso |-> CtlFor(o).iso] : o \in ToSet(origIds)}]
+        \* the settings of the old key are stored under the new key (replacing what a freed type may have left there)
+        ctl |-> {c \in ctl : c.id \notin {newId(o) : o \in ToSet(origIds)}}
+                \cup {[id |-> newId(o), opt |-> CtlFor(o).opt, iso |-> CtlFor(o).iso] : o \in ToSet(origIds)}]
 UseExisting(L) ==
     /\ ~Two /\ reps # <<>> /\ L # <<>>
     /\ \E r \in {UseResult(L)} :
@@ -290,8 +292,7 @@ ExistingBlocksRule ==
         /\ \A a, b \in Idx(ret) : (ret[a].id = ret[b].id) <=> (ret[a].orig = ret[b].orig)
         /\ \A a, b \in Idx(ret) : (ret[a].id[1] = ret[b].id[1]) <=> (ret[a].orig[1] = ret[b].orig[1])
         /\ \A a \in Idx(ret) : /\ ret[a].id[2] = ret[a].orig[2]
-                                 /\ \E k \in Idx(reps) : reps[k].id = ret[a].orig /\ reps[k].val = ret[a].val
-                                 /\ ret[a].id \notin {reps[k].id : k \in Idx(reps)}
+                                 /\ (\E k \in Idx(reps) : reps[k].id = ret[a].orig /\ reps[k].val = ret[a].val)
         /\ Len(colls) = Len(ret)
         /\ \A a \in Idx(colls) : /\ colls[a].id = ret[a].id
                                    /\ \A j \in Idx(colls[a].mem) : colls[a].mem[j] \in ToSet(act.l) /\ IdOf(colls[a].mem[j], env) = colls[a].id
@@ -299,9 +300,9 @@ ExistingBlocksRule ==
         /\ \A i \in 1..N : i \notin ToSet(act.l) => \A a \in Idx(ret) : blk[i].xs[1] # ret[a].id[1]
 \* "Creating representatives never changes the blocks of the core" (all but the environment-group bookkeeping)
 RefreshIsEnvOf   == [][(act'.n \in {"Make", "Create"} /\ enabled /\ ~Single) => \A i \in 1..N : genv'[i] = EnvOf(i)]_vars
-BlocksUntouched  == [][/\ act'.n \in {"Create", "Make", "Disable", "Enable", "UpdCore", "UpdGrp", "UpdNew"} => blk' = blk
-                        /\ act'.n = "Use" => \A i \in 1..N : [blk'[i] EXCEPT !.xs = <<>>] = [blk[i] EXCEPT !.xs = <<>>]
-                                                              /\ (i \notin ToSet(act'.l) => blk'[i] = blk[i])]_vars
+BlocksUntouched  == [][/\ (act'.n \in {"Create", "Make", "Disable", "Enable", "UpdCore", "UpdGrp", "UpdNew"} => blk' = blk)
+                        /\ (act'.n = "Use" => \A i \in 1..N : /\ [blk'[i] EXCEPT !.xs = <<>>] = [blk[i] EXCEPT !.xs = <<>>]
+                                                                /\ (i \notin ToSet(act'.l) => blk'[i] = blk[i]))]_vars
 DisabledFreezes  == [][(act'.n = "Make" /\ ~enabled) => env' = env]_vars
 RefusalKeepsReps == [][err' # "" => reps' = reps]_vars
 
